@@ -10,6 +10,7 @@ import tempfile
 from fractions import Fraction
 
 from ..core import frac
+from . import _c08ext as _ext
 
 LEVEL = "proof"
 RULE = ("random region tables (1..4 dozen rows; chromosome names 1..22/X/Y/M/MT, 3-digit numbers, alt/random/Un/hap "
@@ -796,6 +797,7 @@ def corpus():
     rows = [["chr1", 10 * k, 10 * k + 5, [["s", "g"], _cell_f(v)]] for k, v in enumerate(vals)]
     cases.append({"op": "fmt_roundtrip", "tag": "corpus-numbers",
                   "in": {"wfmt": "tab", "rfmt": "tab", "cna": True, "t0": {"names": ["gene", "log2"], "rows": rows}}})
+    cases.extend(_ext.corpus(_table))
     return cases
 
 
@@ -818,6 +820,7 @@ def gen_cases(rng, tier):
     if tier != "search":
         for _ in range(20 * n):
             cases.append(_malformed(rng))
+    cases.extend(_ext.gen_cases(rng, tier, _table))   # round 4: after everything else, so earlier case streams are unchanged
     return cases
 
 
@@ -976,6 +979,8 @@ def run_impl(case):
     from skgenome import tabio
 
     op, i = case["op"], case["in"]
+    if op in _ext.EXT_OPS:
+        return _ext.run_impl(case, {"read_lines": _read_lines, "array": _array, "writer": _writer, "reader": _reader, "canon": _canon})
     d = tempfile.mkdtemp(dir="/var/tmp", prefix="c08-")
     try:
         if op == "fmt_read":
@@ -1084,6 +1089,8 @@ def _is_err(impl):
 
 def to_line(case, impl):
     op, i = case["op"], case["in"]
+    if op in _ext.EXT_OPS:
+        return _ext.to_line(case, impl, _is_err)
     if op == "fmt_read":
         line = {"op": op, "in": {k: v for k, v in i.items() if k in ("fmt", "lines", "cna", "sel", "truth", "carried") and v is not None}}
         if i.get("written_by"):
@@ -1191,6 +1198,8 @@ def _outside(msg):
 
 def judge(case, impl, resp):
     op, tag = case["op"], case.get("tag", "")
+    if op in _ext.EXT_OPS:
+        return _ext.judge(case, impl, resp, _is_err)
     if "error" in resp and "out" not in resp:
         return [], ["driver error: " + resp["error"]], None
     out = resp.get("out")
@@ -1278,6 +1287,8 @@ def judge(case, impl, resp):
 
 def nontrivial(case, impl, resp):
     i = case["in"]
+    if case["op"] in _ext.EXT_OPS:
+        return _ext.nontrivial(case, impl, resp)
     if case["op"] == "fmt_read":
         rows = (i.get("truth") or {}).get("rows") or []
         return len(rows) >= 2 and len({r[0] for r in rows}) >= 2
